@@ -279,10 +279,29 @@ func runC16(r *Run) {
 	})
 
 	r.rule("R3", "operands matched against trusted origins are origin-shaped (E3 backwards)", func() {
-		originShaped := func(v ssa.Value) (bool, string) {
+		var originShaped func(v ssa.Value) (bool, string)
+		originShaped = func(v ssa.Value) (bool, string) {
 			v = stripValue(v)
 			if c, ok := v.(*ssa.Call); ok {
 				n := calleeName(&c.Call)
+				// a helper of the package that builds the origin (`originOfURL(u)`): judged by what it returns
+				if g := c.Call.StaticCallee(); g != nil && g.Pkg != nil && g.Pkg == c.Parent().Pkg && len(g.Blocks) > 0 && !strings.HasSuffix(n, "csrf.normalizeOrigin") {
+					rets := instrsWhereOne(g, isReturn)
+					all := len(rets) > 0
+					why := ""
+					for _, ri := range rets {
+						ok, w := originShaped(retOperand(ri.(*ssa.Return), 0))
+						if !ok {
+							all, why = false, w
+						} else if why == "" {
+							why = w
+						}
+					}
+					if all {
+						return true, why + " (built by " + g.Name() + ")"
+					}
+					return false, why
+				}
 				if n == "strings.ToLower" {
 					if inner, ok := c.Call.Args[0].(*ssa.Call); ok && strings.HasSuffix(calleeName(&inner.Call), ".Ctx).Get") {
 						if h, ok := constString(asConst(inner.Call.Args[0])); ok && h == "Origin" {
